@@ -130,3 +130,39 @@ contract("esutil.sfile.SFile._make_header",
              "caller's-dict-untouched": "'_size' in header and '_NROWS' in header and '_delim' in header",
          },
          props=["C01"], runtime=False)
+
+
+# ------------------------------------------------------------------------------------------------ mode selection (C03)
+contract("esutil.sfile.SFile.read_header", params=dict(self="obj:SFile{_filename:str}"), returns="opaque:header", assumed=True, runtime=False,
+         why_assumed="opens the file and lets the C++ reader scan the header: needs an existing file (FileNotFoundError otherwise); "
+                     "the header text itself is decided by the bounded round-trip oracle",
+         requires={"the-file-exists": "path_exists(self._filename)"},
+         props=["C03", "C01"])
+contract("esutil.recfile.Util.Recfile.__init__#opened", runtime_name="esutil.recfile.Util.Recfile.__init__",
+         params=dict(self="obj:Recfile{}", filename="str", mode="str", delim="opt[str]", padnull="bool", ignorenull="bool"),
+         assumed=True, runtime=False,
+         why_assumed="ghost effect of opening a record file: the object remembers the mode it was opened with (mode 'w' creates or "
+                     "truncates the file in the C++ constructor, 'r+' opens an existing one)",
+         ensures={"opened-in-the-requested-mode": "self.mode == mode and self.filename == filename"},
+         modifies=["self.mode", "self.filename"], post_types={"self.mode": "str", "self.filename": "str"},
+         props=["C03"])
+
+_SF0 = "obj:SFile{_robj:none,_hdr:none,_size:int}"
+contract("esutil.sfile.SFile.open#append-to-a-missing-file", runtime_name="esutil.sfile.SFile.open",
+         params=dict(self=_SF0, filename="str", mode="const:'r+'", delim="opt[str]", padnull="bool", ignorenull="bool"),
+         requires={"the-file-does-not-exist-yet": "not path_exists(filename)"},
+         ensures={"an-append-to-a-missing-file-creates-it: the handle is in write mode, no header is read, the record file is opened with 'w'":
+                  "self._mode == 'w' and self._hdr is None and self._dtype is None and self._size == 0"
+                  " and self._robj.mode == 'w' and self._robj.filename == filename and self._delim == delim"},
+         modifies=["self"],
+         callee_contracts={"Recfile.__init__": "esutil.recfile.Util.Recfile.__init__#opened", "SFile.read_header": "esutil.sfile.SFile.read_header"},
+         props=["C03"], runtime=False)
+
+contract("esutil.sfile.SFile.open#overwrite", runtime_name="esutil.sfile.SFile.open",
+         params=dict(self=_SF0, filename="str", mode="const:'w'", delim="opt[str]", padnull="bool", ignorenull="bool"),
+         ensures={"a-non-append-write-starts-from-scratch: no header is read whether or not the file exists, the record file is opened with 'w'":
+                  "self._mode == 'w' and self._hdr is None and self._dtype is None and self._size == 0"
+                  " and self._robj.mode == 'w' and self._robj.filename == filename and self._delim == delim"},
+         modifies=["self"],
+         callee_contracts={"Recfile.__init__": "esutil.recfile.Util.Recfile.__init__#opened", "SFile.read_header": "esutil.sfile.SFile.read_header"},
+         props=["C03"], runtime=False)
